@@ -191,7 +191,7 @@ def judge_history(case):
             continue    # wall time in a gap of this definition: no expectation
         tag = ""
         prior = seen_def.get(defn["tzid"])
-        if prior is not None and prior != k % len(case["pool"]):
+        if prior is not None and case["pool"][prior]["obs"] != defn["obs"]:
             tag = "@same-tzid-defined-earlier"
         elif not first:
             tag = "@definition-after-use"
@@ -339,7 +339,10 @@ def histories(draw):
     # a pool of calendars that define the SAME TZID differently (fixed offsets, so expectations are unambiguous)
     offs = draw(st.lists(st.sampled_from([0, 3600, -18000, 19800, 34200, -12600]), min_size=2, max_size=4, unique=True))
     tzid = draw(st.sampled_from(["Custom/Shared", "Custom/Shared", "/Custom/Shared", "/example.org/2024/Custom/Shared/", "Custom Shared"]))
-    pool = [{"tzid": tzid, "obs": [{"kind": "STANDARD", "from": o, "to": o, "name": f"Z{i}", "start": [1970, 1, 1, 0, 0, 0]}]} for i, o in enumerate(offs)]
+    # TZIDs are case-sensitive identifiers: some calendars spell the id in another letter case, which makes it a different zone
+    def spell(i):
+        return [tzid, tzid, tzid.lower(), tzid.upper()][draw(st.integers(0, 3))] if draw(st.booleans()) else tzid
+    pool = [{"tzid": spell(i), "obs": [{"kind": "STANDARD", "from": o, "to": o, "name": f"Z{i}", "start": [1970, 1, 1, 0, 0, 0]}]} for i, o in enumerate(offs)]
     wall = [draw(st.integers(1980, 2030)), draw(st.integers(1, 12)), draw(st.integers(1, 28)), 12, 0, 0]
     ops = draw(st.lists(st.one_of(st.tuples(st.just("parse"), st.integers(0, 3), st.just(wall), st.booleans()).map(list),
                                   st.just(["switch"])), min_size=1, max_size=8))
